@@ -3,7 +3,8 @@
 set -e
 cd "$(dirname "$0")"
 export GOFLAGS=-mod=mod GOPROXY=off GOSUMDB=off GOTOOLCHAIN=local
-(cd lean && lake build Vgw vgwdriver)
+MODS=$(python3 -c "import checks; print(' '.join(sorted({m for c in checks.CHECKS.values() for m in c['lean_props']})))")
+(cd lean && lake build Vgw $MODS vgwdriver)
 mkdir -p .cache/bin
 cp /repo/go.sum harness/go.sum
 (cd harness && go build -tags verif -o ../.cache/bin/vharness ./cmd/vharness)
